@@ -1,4 +1,4 @@
-//! Comment-slot enumeration (C03 / C01 / C02): for every construct of a fixed catalogue and
+//! Comment-slot (and line-break-slot) enumeration (C03 / C01 / C02): for every construct of a fixed catalogue and
 //! for EVERY token gap of it, one comment (block, multi-line block, or line comment + newline)
 //! is injected, the program is formatted under a fixed set of configurations, and all
 //! pipeline oracles are applied. The set is closed and seed-independent; failures on the
@@ -45,6 +45,13 @@ pub const CONSTRUCTS: &[(&str, &str, &str)] = &[
     ("strings", "51", "local s = \"str\" .. 'str2' .. [[long]]\n"),
     ("cond-paren", "51", "if (a and b) then f() end\n"),
     ("semicolon", "51", "local a = f; (g or h)()\n"),
+    ("fn-return-semi", "51", "local function f() return; end\n"),
+    ("fn-return-value-semi", "51", "local f = function() return x; end\n"),
+    ("fn-assign-semi", "51", "local function f() x = 1; end\n"),
+    ("if-return-semi", "51", "if a then return; end\n"),
+    ("stmts-semi", "51", "local a = 1; f(); return a;\n"),
+    ("call-3", "51", "register(handler, fallback, function() return 1 end)\n"),
+    ("require-block", "51", "local b = require(\"b\")\nlocal a = require(\"a\")\n"),
     ("goto-label", "52", "goto done ::done::\n"),
     ("attrib", "54", "local a <const>, b <close> = 1, 2\n"),
     ("luau-typed-local", "luau", "local x: number, y: string? = 1, nil\n"),
@@ -66,6 +73,9 @@ pub const KINDS: &[(&str, &str)] = &[
     ("nl-block", "\n--[[c]] "),
     ("nl-line", "\n--c\n"),
     ("nl-eqblock", "\n--[==[c]==] "),
+    // no comment at all: a line break / a blank line in the gap (layout decisions taken from input positions)
+    ("nl", "\n"),
+    ("blank", "\n\n"),
 ];
 
 pub fn configs() -> Vec<(&'static str, Config)> {
